@@ -907,8 +907,8 @@ def history_real(sf, h):
         except RuntimeError as e:   # a successor whose register starts with deleted / created modes is refused
             if "Register mismatch" not in str(e):
                 raise
-        except ValueError as e:     # run out of context a stale COMPLEX outcome may reach a gate that refuses it
-            if "cannot be complex" not in str(e):
+        except (ValueError, TypeError) as e:     # run out of context a stale COMPLEX outcome may reach a gate / a real-only
+            if not h.get("cx"):                   # function (atan2) that refuses it
                 raise
 
     def attempt(eng, backend):
@@ -941,8 +941,8 @@ def history_real(sf, h):
         except RuntimeError as e:
             if "Register mismatch" not in str(e):
                 raise
-        except ValueError as e:
-            if "cannot be complex" not in str(e):
+        except (ValueError, TypeError) as e:
+            if not h.get("cx"):
                 raise
     if h.get("rerun") and h["build"] == "before":
         # the same programs again: their RegRefs still hold the values of the first run
@@ -1169,10 +1169,10 @@ def session_real(sf, h):
             if "Register mismatch" not in str(e):
                 raise
             return out   # a refused call ends the comparison (register bookkeeping is not this model's subject)
-        except ValueError as e:
-            # after a rolled-back segment an older COMPLEX outcome can be handed to a gate that refuses complex
-            # arguments: legitimate, ends the comparison
-            if "cannot be complex" not in str(e):
+        except (ValueError, TypeError) as e:
+            # after a rolled-back segment an older COMPLEX outcome can be handed to a gate / a real-only function that
+            # refuses complex arguments: legitimate, ends the comparison
+            if not h.get("cx"):
                 raise
             return out
         out.append(({"run": segs}, [(complex(x) if np.imag(x) != 0 else float(np.real(x)))
@@ -1585,7 +1585,8 @@ def prog_one(ctx, sf, spec, cfg):
         else:
             got, got_applied = run(sym_progs, args)
     except Exception as e:
-        ctx.fail("symbolic-program-raises", f"the substituted program runs, the symbolic one raises "
+        sig = "symbolic-program-raises"
+        ctx.fail(sig, f"the substituted program runs, the symbolic one raises "
                  f"{type(e).__name__}: {str(e)[:200]} [{cfg}]", rp)
         return
     # the finite-squeezing homodyne projection of the simulators has condition number ~1e7: rounding differences of
